@@ -402,13 +402,21 @@ class WebVTTWriter(BaseWriter):
         # A properly encoded WebVTT string (plain unicode must be properly
         # escaped before being appended to this string)
         s = ""
+        # Opening style tags written since the last text node. If a new cue
+        # has to be started they belong to it, not to the cue being closed.
+        open_tags = ""
         for i, node in enumerate(nodes):
             if node.type_ == CaptionNode.TEXT:
                 if s and current_layout and node.layout_info != current_layout:
                     # If the positioning changes from one text node to
                     # another, a new WebVTT cue has to be created.
+                    if open_tags and s.endswith(open_tags):
+                        s = s[:-len(open_tags)]
+                    else:
+                        open_tags = ""
                     layout_groups.append((s, current_layout))
-                    s = ""
+                    s = open_tags
+                open_tags = ""
                 # ATTENTION: This is where the plain unicode node content is
                 # finally encoded as WebVTT.
                 s += self._encode_illegal_characters(node.content) or "&nbsp;"
@@ -427,17 +435,24 @@ class WebVTTWriter(BaseWriter):
                         tags = self._convert_style_to_text_tag(style)
                         if node.start:
                             s += tags[0]
+                            open_tags += tags[0]
                         else:
                             s += tags[1]
+                            open_tags = ""
 
                 # TODO: Refactor pycaption and eliminate the concept of a
                 # "Style node"
             elif node.type_ == CaptionNode.BREAK:
+                break_text = ""
                 if i > 0 and nodes[i - 1].type_ != CaptionNode.TEXT:
-                    s += "&nbsp;"
+                    break_text += "&nbsp;"
                 if i == 0:  # cue text starts with a break
-                    s += "&nbsp;"
-                s += "\n"
+                    break_text += "&nbsp;"
+                break_text += "\n"
+                s += break_text
+                if open_tags:
+                    # a break inside a span that was just opened moves with it
+                    open_tags += break_text
 
         if s:
             layout_groups.append((s, current_layout))
